@@ -414,7 +414,7 @@ def run_workspaces(c, cases):
 
     def phase(ph, dep):
         def one(part):
-            return run_impl("drive_c20.py", dict(phase=ph, root=str(root), cases=part), timeout=3000,
+            return run_impl("drive_c20.py", dict(phase=ph, root=str(root), cases=part), timeout=900,
                             extra_env={"VPK_C20_DEPRECATED": dep})
         with ThreadPoolExecutor(max_workers=16) as ex:
             return [x for part in ex.map(one, parts) for x in part]
